@@ -112,3 +112,28 @@ fix_constsrc_guarded (mpz_ptr w, mpz_srcptr u)
     return;
   mpn_rshift (up, up, n, 1);
 }
+
+/* view-alias positive: |v| as a borrowed view, handed to a function that detects w == v by object identity */
+void
+fix_view_alias (mpz_ptr w, mpz_srcptr u, mpz_srcptr v)
+{
+  mpz_t av;
+  ALLOC (av) = 0;
+  PTR (av) = PTR (v);
+  SIZ (av) = ABSIZ (v);
+  mpz_fdiv_r (w, u, av);
+}
+
+/* view-alias negative: the destination is a local, the result is moved afterwards */
+void
+fix_view_local (mpz_ptr w, mpz_srcptr u, mpz_srcptr v)
+{
+  mpz_t av, t;
+  ALLOC (av) = 0;
+  PTR (av) = PTR (v);
+  SIZ (av) = ABSIZ (v);
+  mpz_init (t);
+  mpz_fdiv_r (t, u, av);
+  mpz_swap (w, t);
+  mpz_clear (t);
+}
